@@ -1,8 +1,7 @@
 #!/bin/sh
-# import_seed.sh <PROP> <mN>: copy an agent deliverable into /verif/seeded/<PROP>-<mN>, confirm it, report
-P=$1; M=$2; D=/verif/seeded/$P-$M
-mkdir -p $D && cp /tmp/wt/out/$P/$M/patch.diff /tmp/wt/out/$P/$M/demo.py /tmp/wt/out/$P/$M/meta.json $D/ 2>/dev/null
-# demos must not depend on the worker's scratch path
+# import_seed.sh <PROP> <mN> [outdir] [tag]: copy an agent deliverable into /verif/seeded/<PROP>-<tag><mN>, confirm it, report
+P=$1; M=$2; OUT=${3:-/tmp/wt/out}; TAG=${4:-}; D=/verif/seeded/$P-$TAG$M
+mkdir -p $D && cp $OUT/$P/$M/patch.diff $OUT/$P/$M/demo.py $OUT/$P/$M/meta.json $D/ 2>/dev/null
 /venv/bin/python - "$D/demo.py" <<'PY'
 import re, sys
 p = sys.argv[1]; s = open(p).read()
@@ -11,4 +10,4 @@ s2 = re.sub(r"/tmp/wt/C\d\d", "/repo", s2)
 if s2 != s: open(p, "w").write(s2)
 PY
 /verif/selftest/confirm_seed.py $D > $D/confirm.json 2>&1
-grep -E '"confirmed"|patch_applies|demo_unchanged_rc|demo_patched_rc|baseline_missing' $D/confirm.json | tr -d '\n'; echo " <- $P-$M"
+grep -E '"confirmed"|patch_applies|demo_unchanged_rc|demo_patched_rc|baseline_missing' $D/confirm.json | tr -d '\n'; echo " <- $P-$TAG$M"
